@@ -121,7 +121,10 @@ class Types:
                         self._attr_decl.setdefault(n.target.attr, []).append((c, n.annotation))
                     elif isinstance(n, ast.Assign) and len(n.targets) == 1 and isinstance(n.targets[0], ast.Attribute) and isinstance(n.targets[0].value, ast.Name) \
                             and n.targets[0].value.id == selfn:
-                        self._attr_decl.setdefault(n.targets[0].attr, []).append((c, None))
+                        ann = None
+                        if isinstance(n.value, ast.Name) and n.value.id in init.param_names():
+                            ann = init.param_annotation(n.value.id)      # self.x = x  with an annotated parameter
+                        self._attr_decl.setdefault(n.targets[0].attr, []).append((c, ann))
                     elif isinstance(n, ast.Call) and isinstance(n.func, ast.Attribute) and n.func.attr == '__setattr__' and len(n.args) >= 2 and isinstance(n.args[1], ast.Constant):
                         pass
 
@@ -147,6 +150,20 @@ class Types:
         if all(k[0] == 'imm' for k in kinds):
             return 'imm', True, True
         return None, False, True
+
+    def mapping_value_kind(self, kind: Optional[str]) -> Tuple[Optional[str], bool, bool]:
+        """For an instance of a repo class derived from (Mutable)Mapping[K, V]: (kind of V, elem imm, known)."""
+        ci = self.class_of(kind)
+        if ci is None:
+            return None, False, False
+        for c in self.prog.mro(ci):
+            for b in c.base_exprs:
+                if isinstance(b, ast.Subscript):
+                    head = b.value.attr if isinstance(b.value, ast.Attribute) else b.value.id if isinstance(b.value, ast.Name) else ''
+                    if head in ('MutableMapping', 'Mapping', 'Dict', 'dict') and isinstance(b.slice, ast.Tuple) and len(b.slice.elts) == 2:
+                        k, e = self.ann_kind(b.slice.elts[1])
+                        return k, e, True
+        return None, False, False
 
     def class_of(self, kind: Optional[str]) -> Optional[ClassInfo]:
         if kind and kind.startswith('obj:'):
